@@ -78,6 +78,11 @@ Definition pcall_eqb (s1 s2 : stmt) : bool :=
     SStore r2 o2 n2 (ECall f2 (EConcat [ELoad a2 b2 c2; ELoad d2 e2 g2])) =>
       Nat.eqb r1 r2 && Nat.eqb o1 o2 && Nat.eqb n1 n2 && Nat.eqb f1 f2 && Nat.eqb a1 a2 && Nat.eqb b1 b2 && Nat.eqb c1 c2
       && Nat.eqb d1 d2 && Nat.eqb e1 e2 && Nat.eqb g1 g2
+  (* a callee with a second data argument (MANTIS: the per-block tweak) *)
+  | SStore r1 o1 n1 (ECall f1 (EConcat [ELoad a1 b1 c1; ELoad t1 u1 v1; ELoad d1 e1 g1])),
+    SStore r2 o2 n2 (ECall f2 (EConcat [ELoad a2 b2 c2; ELoad t2 u2 v2; ELoad d2 e2 g2])) =>
+      Nat.eqb r1 r2 && Nat.eqb o1 o2 && Nat.eqb n1 n2 && Nat.eqb f1 f2 && Nat.eqb a1 a2 && Nat.eqb b1 b2 && Nat.eqb c1 c2
+      && Nat.eqb t1 t2 && Nat.eqb u1 u2 && Nat.eqb v1 v2 && Nat.eqb d1 d2 && Nat.eqb e1 e2 && Nat.eqb g1 g2
   | _, _ => false
   end.
 Lemma pcall_eqb_eq : forall s1 s2, pcall_eqb s1 s2 = true -> s1 = s2.
@@ -86,8 +91,9 @@ Proof.
   repeat match type of H with
          | match ?x with _ => _ end = true => destruct x; try discriminate
          end.
-  repeat (apply andb_true_iff in H; destruct H as [H ?]).
-  repeat match goal with E : Nat.eqb _ _ = true |- _ => apply Nat.eqb_eq in E end. subst. reflexivity.
+  all: repeat (apply andb_true_iff in H; destruct H as [H ?]).
+  all: repeat match goal with E : Nat.eqb _ _ = true |- _ => apply Nat.eqb_eq in E end.
+  all: subst; reflexivity.
 Qed.
 Fixpoint pcalls_eqb (l1 l2 : list stmt) : bool :=
   match l1, l2 with
